@@ -200,13 +200,22 @@ def scn_wire(params):
         # -P wins over the IODINE_PASS environment variable, and nothing of the latter may leak into the response
         envpw = bytes.fromhex(params.get("env_password_hex", "")).decode("latin1")
         argv = [sim.cli_bin, "-f"] + ([] if params["raw"] else ["-r"]) + ["-T", params["qtype"]]
-        for pv in params.get("earlier_P_hex", []):
-            argv += ["-P", bytes.fromhex(pv)]          # an earlier -P that the last one overrides
-        argv += ["-P", pw, scen.SERVER_IP, sim.domain]
-        c = k.spawn("cli0", "client", argv, ["10.53.1.1"], env={"IODINE_PASS": envpw}, san_env=sim.env)
+        stdin_data = None
+        if params.get("pw_via", "P") == "P":
+            for pv in params.get("earlier_P_hex", []):
+                argv += ["-P", bytes.fromhex(pv)]          # an earlier -P that the last one overrides
+            argv += ["-P", pw, scen.SERVER_IP, sim.domain]
+        else:
+            # neither -P nor the environment variable: the password is read from standard input, with or without a final
+            # newline before the end of the stream (printf %s "$PW" | iodine ..., a secrets file without trailing newline)
+            argv += [scen.SERVER_IP, sim.domain]
+            envpw = None                 # unset: an empty IODINE_PASS would be taken as the (empty) password
+            stdin_data = pw + (b"\n" if params["pw_via"] == "stdin-nl" else b"") + (b"second line\n" if params["pw_via"] == "stdin-nl" and params["idx"] % 2 else b"")
+        c = k.spawn("cli0", "client", argv, ["10.53.1.1"], env={"IODINE_PASS": envpw}, san_env=sim.env, stdin_data=stdin_data)
         sim.run_until(lambda: sim.client_in_tunnel(c) or not c.alive(), 60 * US)
         k.run(k.now + 3 * US)
         wit = {"seed": seed, "password": pw.hex(), "password_len": len(pw), "challenge": "0x%08x" % ch, "params": params}
+        out["sets"]["password_given_via"] = {params.get("pw_via", "P")}
         nd = len(hs.domain)
         for q in hs.queries:
             labels = q.qd[0][0]
@@ -315,6 +324,28 @@ def scn_srv(params):
                                               % (r, mc.userid, mc.challenge, len(old)), wit))
                 old.append(mc.challenge)
                 batch.append(mc)
+                if mc.login_reply is not None and rng.random() < 0.5:
+                    # raw-mode login, repeated (the client retransmits when the reply is lost; datagrams get duplicated): every
+                    # reply must be the documented MD5(password xor (challenge-1)); a wrong response gets none
+                    if rng.random() < 0.3:
+                        n0 = len(mc.raw_in)
+                        mc.raw_login(digest=oracle(pw, mc.challenge))         # the DNS-login response is not the raw one
+                        k.run(k.now + 20000)
+                        out["stats"]["srv_raw_logins_wrong"] = out["stats"].get("srv_raw_logins_wrong", 0) + 1
+                        if len(mc.raw_in) > n0:
+                            out["violations"].append(("C19:server:wrong-raw-response-accepted", "the server replied to a raw login carrying the response for challenge+0 (slot %d)" % mc.userid, wit))
+                    for rep in range(rng.randint(1, 4)):
+                        n0 = len(mc.raw_in)
+                        mc.raw_login()
+                        k.run(k.now + rng.choice([5000, 20000, 1000000]))
+                        out["stats"]["srv_raw_logins_correct"] = out["stats"].get("srv_raw_logins_correct", 0) + 1
+                        out["evaluations"] += 1
+                        got = [d for (_t, _s, d) in mc.raw_in[n0:]]
+                        want = proto.raw_frame(proto.RAW_LOGIN, mc.userid, oracle(pw, (mc.challenge - 1) & 0xFFFFFFFF))
+                        if got != [want]:
+                            out["violations"].append(("C19:server:raw-login-reply", "raw login #%d of slot %d (challenge 0x%08x) was answered with %s, the documented reply is %s"
+                                                      % (rep + 1, mc.userid, mc.challenge, [g.hex()[:48] for g in got] or "nothing", want.hex()), wit))
+                            break
             # everybody falls silent; the slots become reusable
             k.run(k.now + rng.choice([61, 62, 70]) * US)
         if out["stats"]["srv_slot_reuses"]:
@@ -344,7 +375,8 @@ def wire_params(ctx, rng):
                       "env_password_hex": (bytes(rng.randint(33, 126) for _ in range(rng.choice([8, 20, 32, 40]))).hex() if rng.random() < 0.3 else ""),
                       "earlier_P_hex": ([bytes(rng.randint(33, 126) for _ in range(rng.choice([12, 32]))).hex()] if rng.random() < 0.15 else []),
                       "raw": i % 2 == 0, "drop_raw": rng.choice([0, 0, 1, 2, 3]), "reply": rng.choice(["good", "good", "dns-hash", "plus1", "bitflip"]), "flip": rng.randrange(128),
-                      "qtype": rng.choice(["NULL", "TXT", "CNAME", "MX"])})
+                      "qtype": rng.choice(["NULL", "TXT", "CNAME", "MX"]),
+                      "pw_via": (rng.choice(["stdin-nl", "stdin-nonl", "stdin-nonl"]) if style == 0 and rng.random() < 0.4 else "P")})
     return plist
 
 
